@@ -1,13 +1,14 @@
 (* C19: what the driver evaluates on every observed case *)
-From Coq Require Import ZArith List Bool Lia String Ascii.
+From Coq Require Import ZArith NArith List Bool Lia String Ascii.
 Require Import Cases_Common.
-Require Export C19_Model C19_Spec.
+Require Export C19_Model C19_Spec C19_Fast.
 Require Import C19_Sound C19_Nonce.
 Import ListNotations.
 Open Scope Z_scope.
 
 Inductive case :=
 | CHist (c : cfg) (items : list item)                          (* one service instance, one history, from the empty cache *)
+| CHistR (c : cfg) (segs : list (N * item))                    (* the same in run-length form: (n, it) = n consecutive identical items *)
 | CNonce (base : string) (n : Z) (raw : bool) (targets bounds : list Z) (out : option string)
                                                                (* VerifGenNonceStr with a scripted draw function *)
 | CSample (n : Z) (codes : list string).                       (* codes drawn by the real generator through a real-sender service *)
@@ -16,6 +17,7 @@ Inductive case :=
 Definition case_accept (x : case) : bool :=
   match x with
   | CHist c items => conforms_run c [] items
+  | CHistR c segs => conforms_run c [] (expand segs)
   | CNonce base n raw targets bounds out =>
     (Z.of_nat (List.length targets) =? Z.max 0 n)
     && zlist_eqb (fst (nonce_run (nonce_bound base) base raw targets)) bounds
@@ -27,14 +29,16 @@ Definition case_accept (x : case) : bool :=
 Definition case_holds (x : case) : bool :=
   match x with
   | CHist c items => holds c items
+  | CHistR c segs => holds_fast c (expand segs)                (* = holds c (expand segs), in one pass *)
   | CNonce base n raw targets bounds out => nonce_holds base n targets out
   | CSample n codes => sample_holds n codes
   end.
 
 Theorem case_sound : forall x, case_accept x = true -> case_holds x = true.
 Proof.
-  intros [c items|base n raw targets bounds out|n codes]; cbn [case_accept case_holds]; intros H.
+  intros [c items|c segs|base n raw targets bounds out|n codes]; cbn [case_accept case_holds]; intros H.
   - apply model_holds, H.
+  - rewrite holds_fast_eq. apply model_holds, H.
   - apply andb_prop in H as [H H3]. apply andb_prop in H as [H1 H2].
     apply Z.eqb_eq in H1. apply ostr_eqb_eq in H3. rewrite <- H3. apply nonce_model_holds, H1.
   - exact H.
